@@ -50,6 +50,7 @@ HARNESS_FILES = {
     "bitrepr_c12.rs": ("src/component/bitrepr.rs", "verif_c12"),
     "bitrepr_hdr.rs": ("src/component/bitrepr.rs", "verif_hdr"),
     "coding_frm.rs": ("src/coding.rs", "verif_frm"),
+    "parser_frm.rs": ("src/component/parser.rs", "verif_frm"),
     "rice_parts.rs": ("src/rice.rs", "verif_parts"),
     "datatype_pre.rs": ("src/component/datatype.rs", "verif_pre"),
     "decode_sig.rs": ("src/component/decode.rs", "verif_sig"),
